@@ -44,6 +44,10 @@ for d in sorted(glob.glob(os.path.join(ROOT, "seeded", "*"))):
         "what_i_ran": ["checklib/confirm_seeded.sh <agent out dir> <label>"] + [f"checklib/seeded_eval.sh {sid} {x['check']} {x['tier']}" for x in detections],
         "detection": detections,
     }
+    try:
+        meta["history"] = open(os.path.join(d, "notes.txt")).read().strip()
+    except Exception:
+        pass
     with open(os.path.join(d, "meta.json"), "w") as f:
         json.dump(meta, f, indent=1)
     own = [x for x in detections if x["check"] == prop]
